@@ -9,6 +9,7 @@ import (
 	"os"
 	"sort"
 	"strings"
+	"sync/atomic"
 	"time"
 
 	"gosmt/smt"
@@ -34,6 +35,10 @@ type pathEnd struct {
 }
 
 // Violation is a failed assertion / reachable panic with a model.
+// StopAll is set by the driver once an obligation has finished with a violation: the
+// remaining obligations stop (they are reported as not completed) so that the run fails fast.
+var StopAll int32
+
 type Violation struct {
 	Msg    string            `json:"msg"`
 	Kind   string            `json:"kind"` // "assert" | "panic"
@@ -44,23 +49,23 @@ type Violation struct {
 }
 
 type Config struct {
-	Unwind      int
-	MaxPaths    int
-	MaxSteps    int
-	TimeoutMs   int
-	Solver      string
-	AllowPanic  bool // panics are outcomes, not violations
-	OpenKnown   map[string]bool
-	Deadline    time.Time
-	MaxConcVals int
-	Stubs       map[string]bool // extra named stubs enabled
-	Trace       bool
-	Cuts        []CutSpec
-	AssertSolver string // one-shot back end for assertion queries (e.g. cvc5-int for checksum arithmetic)
-	AssertTimeoutMs int
-	BMCTimeoutMs    int
+	Unwind           int
+	MaxPaths         int
+	MaxSteps         int
+	TimeoutMs        int
+	Solver           string
+	AllowPanic       bool // panics are outcomes, not violations
+	OpenKnown        map[string]bool
+	Deadline         time.Time
+	MaxConcVals      int
+	Stubs            map[string]bool // extra named stubs enabled
+	Trace            bool
+	Cuts             []CutSpec
+	AssertSolver     string // one-shot back end for assertion queries (e.g. cvc5-int for checksum arithmetic)
+	AssertTimeoutMs  int
+	BMCTimeoutMs     int
 	DivergeViolation bool // exceeding the unwinding / step bound is non-termination, reported with a model
-	NoLemmas bool // do not add proven assertions to the path condition
+	NoLemmas         bool // do not add proven assertions to the path condition
 }
 
 // Stats of one obligation run.
@@ -92,30 +97,30 @@ type X struct {
 	pos   int
 	pc    []*T
 	// per-path state
-	globals   map[*ssa.Global]Loc
-	names     map[string]int
-	inputs    []*T // named nondeterministic inputs of this path, in creation order
-	inputSeen map[string]bool
-	steps     int
-	depth     int
-	fresh     int
-	ghost     map[string]Value
-	curInstr  ssa.Instruction
-	mono      *T // last clock reading
-	lastModel map[string]uint64
-	cutSeen   map[string]int
-	Params    map[string]int
-	cutOld    map[string]Value
-	stack     []*frame
-	locSeq    int
-	locByID   []Loc
-	chanByID  []*ChanObj
-	bmc       *bmcCtx
-	realSleep bool // the obligation is about pkg/sleep itself: do not stub Sleeper.Fetch
-	clockMax  *T
-	clockFrozen bool
+	globals                              map[*ssa.Global]Loc
+	names                                map[string]int
+	inputs                               []*T // named nondeterministic inputs of this path, in creation order
+	inputSeen                            map[string]bool
+	steps                                int
+	depth                                int
+	fresh                                int
+	ghost                                map[string]Value
+	curInstr                             ssa.Instruction
+	mono                                 *T // last clock reading
+	lastModel                            map[string]uint64
+	cutSeen                              map[string]int
+	Params                               map[string]int
+	cutOld                               map[string]Value
+	stack                                []*frame
+	locSeq                               int
+	locByID                              []Loc
+	chanByID                             []*ChanObj
+	bmc                                  *bmcCtx
+	realSleep                            bool // the obligation is about pkg/sleep itself: do not stub Sleeper.Fetch
+	clockMax                             *T
+	clockFrozen                          bool
 	AuxQueries, AuxSat, AuxUnsat, AuxUnk int
-	AuxTime   time.Duration
+	AuxTime                              time.Duration
 }
 
 func (x *X) unsupported(msg string) {
@@ -176,6 +181,9 @@ func (x *X) branch(c *T) bool {
 	}
 	if !x.Cfg.Deadline.IsZero() && time.Now().After(x.Cfg.Deadline) {
 		panic(pathEnd{"budget", "time budget exhausted"})
+	}
+	if atomic.LoadInt32(&StopAll) != 0 && len(x.St.Violations) == 0 {
+		panic(pathEnd{"budget", "stopped early: another obligation of this run already reported a violation"})
 	}
 	rt, _ := x.check([]*T{c}, nil)
 	var rf smt.Result
